@@ -1,0 +1,37 @@
+//go:build verif
+
+// Contracts for package pq, read by the govc verifier (/verif). Comments only.
+package pq
+
+// A priority queue object delivers the sequence (qKey(q,i), qVal(q,i), qCtx(q,i)); its i-th call of Next returns
+// the error qErr(q,i). qPos(q) is the number of calls made so far.
+
+//@ ghost qPos(q Ref) Int
+//@ spec func qErr(q Ref, i Int) Err
+//@ spec func qKey(q Ref, i Int) any
+//@ spec func qVal(q Ref, i Int) any
+//@ spec func qCtx(q Ref, i Int) any
+
+//@ iface PriorityQueueI.Next
+//@   ensures [step] qPos(this) == old(qPos(this)) + 1
+//@   ensures [err] r3 == qErr(this, old(qPos(this)))
+//@   ensures [kv] r3 == nil ==> r0 === qKey(this, old(qPos(this))) && r1 === qVal(this, old(qPos(this))) && r2 == qCtx(this, old(qPos(this)))
+//@   modifies qPos(this)
+
+// Inputs of the queue: the i-th call of Next on input `it` returns inErr(it,i) with (inKey(it,i), inVal(it,i)).
+
+//@ ghost inPos(it Ref) Int
+//@ spec func inErr(it Ref, i Int) Err
+//@ spec func inKey(it Ref, i Int) any
+//@ spec func inVal(it Ref, i Int) any
+//@ spec func inCtx(it Ref) any
+
+//@ iface IteratorWithContext.Next
+//@   ensures [step] inPos(this) == old(inPos(this)) + 1
+//@   ensures [err] r2 == inErr(this, old(inPos(this)))
+//@   ensures [kv] r2 == nil ==> r0 === inKey(this, old(inPos(this))) && r1 === inVal(this, old(inPos(this)))
+//@   modifies inPos(this)
+
+//@ iface IteratorWithContext.Context
+//@   ensures r0 == inCtx(this)
+//@   pure
